@@ -147,8 +147,60 @@ func (ex *Exec) writesGlobal(ins ssa.Instruction, g *ssa.Global) bool {
 	return root(st.Addr) == ssa.Value(g)
 }
 
-func (f *Frame) rangeInstr(ns *nodeState, x *ssa.Range)   { f.ex.fail("range over %s", x.X.Type()) }
-func (f *Frame) nextInstr(ns *nodeState, x *ssa.Next)     { f.ex.fail("next") }
+// Range over a map: the iterator is a ghost set of the keys already produced. Each Next produces an arbitrary key
+// of the current domain that has not been produced yet, or reports exhaustion when there is none; every property
+// proved therefore holds for every iteration order. (Keys added during the iteration may or may not be produced,
+// deleted ones are not: both allowed by the Go specification.)
+func (f *Frame) rangeInstr(ns *nodeState, x *ssa.Range) {
+	ex := f.ex
+	mt, ok := x.X.Type().Underlying().(*types.Map)
+	if !ok {
+		ex.fail("range over %s", x.X.Type())
+	}
+	ks := ex.vc.SortOf(mt.Key())
+	c := ex.newCell(f.prefix+x.Name()+"_seen", SArray(ks, SBool), nil)
+	c.Ghost = true
+	ns.st[c] = ex.vc.zeroTerm(c.Sort)
+	mv := f.operand(ns.env, x.X)
+	ns.env[x] = Val{Iter: c, IterOf: &mv}
+	ex.iters = append(ex.iters, iterInfo{cell: c, rng: x})
+}
+
+type iterInfo struct {
+	cell *Cell
+	rng  *ssa.Range
+}
+
+func (f *Frame) nextInstr(ns *nodeState, x *ssa.Next) {
+	ex := f.ex
+	vc := ex.vc
+	if x.IsString {
+		ex.fail("range over a string")
+	}
+	it := f.operand(ns.env, x.Iter)
+	if it.Iter == nil {
+		ex.fail("next on a non-iterator")
+	}
+	mt := x.Iter.(*ssa.Range).X.Type().Underlying().(*types.Map)
+	m := ex.viewOf(ns.st, *it.IterOf)
+	seen := ns.st[it.Iter]
+	ok := vc.Declare(f.prefix+x.Name()+"_ok", SBool)
+	k := vc.Declare(f.prefix+x.Name()+"_k", m.Sort.Key)
+	ex.assumeRange(k, mt.Key(), ns.reach)
+	vc.Assume(Implies(ok, And(Select(mpDom(m), k), Not(Select(seen, k)))), "range: the next key is in the map and new")
+	q := Atom("q_rk", m.Sort.Key)
+	vc.Assume(Implies(Not(ok), Term{S: fmt.Sprintf("(forall ((q_rk %s)) (! %s :pattern (%s)))", m.Sort.Key.Name,
+		Implies(Select(mpDom(m), q), Select(seen, q)).S, Select(mpDom(m), q).S), Sort: SBool}), "range: exhausted only when every key has been produced")
+	ns.st[it.Iter] = vc.Define(f.prefix+x.Name()+"_seen", Ite(ok, Store(seen, k, TTrue), seen))
+	ex.markWritten(it.Iter, -1)
+	v := vc.Define(f.prefix+x.Name()+"_v", Select(mpVal(m), k))
+	ex.assumeRange(v, mt.Elem(), ns.reach)
+	rv := Val{T: v}
+	if it.IterOf.Origin != nil && isRefType(mt.Elem()) {
+		rv.Origin = it.IterOf.Origin.extend(PathElem{Kind: 'm', Idx: k}).at(ex.seq)
+	}
+	ns.env[x] = Val{Tup: []Val{{T: ok}, {T: k}, rv}}
+}
 func (f *Frame) runDefers(ns *nodeState)                  {}
 func (f *Frame) deferInstr(ns *nodeState, x *ssa.Defer)   { f.ex.fail("defer") }
 func (f *Frame) goInstr(ns *nodeState, x *ssa.Go)         { f.ex.fail("go statement") }
